@@ -382,6 +382,67 @@ def run_leapfrog(u):
     else: rep.witnesses += 1
     return rep
 
+def run_jerk_homogeneity(u):
+    """the analytic jerk of the modified-kick kernel is linear in G (dimensional analysis: every term is G x mass x acceleration /
+    length^3): for arbitrary positions, masses and accelerations, jerk(G = g) == g * jerk(G = 1).  A term that loses or gains a
+    factor G makes the scheme depend on the unit system and destroys the cancellation the modified kick exists for."""
+    rep = Report(); N = u['N']; label = "whfast jerk homogeneity in G N=%d " % N
+    L = build.layout(); psz = L.structs['reb_particle']['size']
+    dom = Real(); ctx = PathCtx(); I = new_interp(dom, ctx); I.concrete_env = True
+    sim = Sim(I)
+    for i in range(N): sim.add(m=1.0)
+    V = {}
+    for i in range(N):
+        for c in ('x', 'y', 'z', 'ax', 'ay', 'az', 'm'):
+            V[(i, c)] = dom.fresh('%s%d' % (c, i)); sim.particle(i).set(c, V[(i, c)])
+        ctx.assume(V[(i, 'm')] > 0)
+    g = dom.fresh('G'); ctx.assume(g > 0)
+    pj = I.mem.alloc(psz * N, 'p_jh', 'heap', zero=True); sim.set('ri_whfast.p_jh', pj); sim.set('ri_whfast.N_allocated', N)
+    def jerk(Gv):
+        sim.set('G', Gv)
+        I.call('@reb_whfast_calculate_jerk', [sim.ptr])
+        return [[dom.z(SimView(I, Ptr(pj.obj, pj.off + i * psz), 'reb_particle').get(a)) for a in ('ax', 'ay', 'az')] for i in range(N)]
+    Jg = jerk(g); J1 = jerk(Fraction(1))
+    rep.paths += 1; rep.add_interp(I)
+    ob = Obligations(rep, Prover(t_inproc_ms=20000, use_external=True, t_ext_s=60), label)
+    assum = list(ctx.pc) + [b != 0 for b in dom.divs]
+    def on_sat(model):
+        vals = {"%s%d" % (c, i): fl(model, t) for (i, c), t in V.items()}; vals['G'] = fl(model, g) or 3.0
+        ok, detail = native_jerk_homogeneity(N, vals)
+        return ok, 'C01:jerk:homogeneity', detail, dict(kind='jerk_homogeneity', N=N, vals=vals)
+    for i in range(N):
+        for k, a in enumerate('xyz'):
+            ob.prove("jerk[%d].%s(G) == G * jerk[%d].%s(1)" % (i, a, i, a), Jg[i][k] == g * J1[i][k], assum, axioms=dom.axioms, on_sat=on_sat, domain='REAL')
+    ob.witness("inputs", assum, axioms=dom.axioms)
+    bad, detail = native_jerk_homogeneity(N, None); rep.replays += 1
+    if bad: rep.violations.append(dict(key='C01:jerk:homogeneity', what=detail, replay=dict(kind='jerk_homogeneity', N=N, vals=None), obligation=label + 'native twin'))
+    return rep
+
+def native_jerk_homogeneity(N, vals):
+    import random
+    N_ = nat(); L = N_.L; rnd = random.Random(9)
+    if not vals or any(abs(v) > 1e6 or v != v for v in vals.values()):
+        vals = {"%s%d" % (c, i): rnd.uniform(-1, 1) + (3.0 * i if c == 'x' else 0.0) for i in range(N) for c in ('x', 'y', 'z', 'ax', 'ay', 'az')}
+        for i in range(N): vals['m%d' % i] = rnd.uniform(0.2, 2.0)
+        vals['G'] = 39.47
+    ns = N_.create()
+    try:
+        for i in range(N): ns.add(m=vals['m%d' % i], x=3.0 * i + 1, vy=0.3)
+        ns.set('integrator', L.enumerators['REB_INTEGRATOR_WHFAST']); ns.set('ri_whfast.kernel', L.enumerators['REB_WHFAST_KERNEL_MODIFIEDKICK']); ns.set('dt', 1e-3)
+        ns.call('reb_simulation_step')                     # allocates the Jacobi buffer the jerk is written to
+        out = []
+        for Gv in (vals['G'], 1.0):
+            for i in range(N):
+                for c in ('x', 'y', 'z', 'ax', 'ay', 'az'): ns.particle(i).set(c, vals['%s%d' % (c, i)])
+            ns.set('G', Gv); ns.call('reb_whfast_calculate_jerk')
+            pj = ns.get('ri_whfast.p_jh')
+            out.append([[NView(N_, pj + i * N_.psize, 'reb_particle').get(a) for a in ('ax', 'ay', 'az')] for i in range(N)])
+        sc = max(abs(x) for r_ in out[0] for x in r_) + 1e-300
+        worst = max(abs(a - vals['G'] * b) for ra, rb in zip(out[0], out[1]) for a, b in zip(ra, rb)) / sc
+        return worst > 1e-9, "native reb_whfast_calculate_jerk: jerk(G=%r) vs G * jerk(G=1): relative difference %.2e" % (vals['G'], worst)
+    finally:
+        ns.free()
+
 def run_changeover(u):
     rep = Report(); fn = u['fn']
     label = "%s " % fn
@@ -429,7 +490,7 @@ def run_changeover(u):
 
 def worker(u, conc=False):
     if conc: return {'wh': run_wh, 'eos': run_eos, 'janus': run_janus}[u['what']](u, conc=True)
-    return {'wh': run_wh, 'eos': run_eos, 'janus': run_janus, 'leapfrog': run_leapfrog, 'changeover': run_changeover}[u['what']](u)
+    return {'wh': run_wh, 'eos': run_eos, 'janus': run_janus, 'leapfrog': run_leapfrog, 'changeover': run_changeover, 'jerk_homogeneity': run_jerk_homogeneity}[u['what']](u)
 
 def replay(data):
     """replay of a ground obligation: the concrete twin of the unit"""
@@ -437,6 +498,7 @@ def replay(data):
         tw = twin(data['unit']); i = data['index']
         bad = i < len(tw) and not tw[i][1]
         return bad, "concrete re-execution: %s %s" % (tw[i][0] if i < len(tw) else '?', 'does not hold' if bad else 'holds')
+    if data.get('kind') == 'jerk_homogeneity': return native_jerk_homogeneity(data['N'], data['vals'])
     if data.get('kind') == 'leapfrog': return native_leapfrog(data['x'], data['v'], data['g'], data['dt'])
     if data.get('kind') == 'changeover': return native_changeover(data['fn'], data['d'], data['dcrit'], data['claim'])
     raise ValueError(data)
@@ -477,6 +539,8 @@ def main():
     for cor in ((11,) if tier == 'quick' else correctors[1:]): us.append(dict(what='wh', integ='WHFAST', set={'ri_whfast.corrector': cor}, unsync=True))
     for ty in list(SABA_ORDERS) + ['REB_SABA_CM_1', 'REB_SABA_CL_4']: us.append(dict(what='wh', integ='SABA', set={'ri_saba.type': ty}, unsync=True))
     for p0 in eos_types: us.append(dict(what='eos', phi0=p0, phi1='REB_EOS_LF', n=1, unsync=True))
+    us.append(dict(what='jerk_homogeneity', N=3))
+    if tier == 'thorough': us.append(dict(what='jerk_homogeneity', N=4))
     for o in (2, 4, 6, 8, 10): us.append(dict(what='janus', order=o))
     for fn in ('reb_integrator_mercurius_L_mercury', 'reb_integrator_mercurius_L_C4', 'reb_integrator_mercurius_L_C5'): us.append(dict(what='changeover', fn=fn, two_point=(fn != 'reb_integrator_mercurius_L_C5')))
     rep = run_units(us, worker)
